@@ -278,6 +278,85 @@ def translate():
             raise _absent("no comparison between a `received` total and an `expected` / `declared` length")
         if sorted(ops) != sorted([">", "!=", "!="]):
             return "DATA total vs declared length is compared with %r" % ops
+    # ---- trailers: any ':'-prefixed name refuses the block (pkawa.rs handle_trailer; hook-named function: hard)
+    def trailer_colon():
+        body = F.fn_body(pk, "handle_trailer")
+        if not (re.search(r"\b(\w+)\.starts_with\(\s*b\":\"\s*\)", body) or re.search(r"\.first\(\)\s*==\s*Some\(\s*&b':'\s*\)", body)
+                or re.search(r"\[\s*0\s*\]\s*==\s*b':'", body) or re.search(r"matches!\(\s*\w+\.first\(\)\s*,\s*Some\(\s*(?:&\s*)?b':'\s*\)\s*\)", body)):
+            return "no test refuses every trailer name starting with ':'"
+        if not re.search(r"\bclassify_invalid_h2_header\s*\(|\b%s\s*\(" % "reject_reason_for", body) and not re.search(r"if\s+let\s+Some\(\s*\w+\s*\)\s*=\s*\w+\(\s*&\w+\s*,\s*&\w+\s*\)", body):
+            return "the trailer fields no longer go through the header validation"
+    _fact(fails, "pkawa.rs handle_trailer", "a name starting with ':' (any) and a field the header validation refuses make the block invalid", trailer_colon, hard=True)
+
+    # ---- mux/h1.rs: keep-alive decisions that depend on the request being finished
+    h1 = rd("lib/src/protocol/mux/h1.rs")
+
+    def lets(text):
+        return {m.group(1): re.sub(r"\s+", "", m.group(2)) for m in re.finditer(r"\blet\s+(\w+)\s*=\s*([^;{}]+);", text)}
+
+    def conjuncts(cond, defs):
+        out = set()
+        for c in cond.split("&&"):
+            c = re.sub(r"\s+", "", c)
+            neg = c.startswith("!")
+            v = c[1:] if neg else c
+            if v in defs:
+                d = defs[v]
+                # `!v` with v = `!e`  ==>  `e`;  a conjunction bound to a name is expanded
+                if neg and d.startswith("!") and "&&" not in d and "||" not in d:
+                    out.add(d[1:])
+                    continue
+                if not neg and "||" not in d:
+                    out |= {x for x in d.split("&&")}
+                    continue
+            out.add(c)
+        return out
+
+    def park():
+        body = F.fn_body(h1, "end_stream")
+        at = body.find("BackendStatus::KeepAlive;")
+        ma = list(re.finditer(r"\*\s*\w+\s*=\s*BackendStatus::KeepAlive\s*;", body))
+        if len(ma) != 1:
+            raise F.Unreadable("%d assignments of BackendStatus::KeepAlive" % len(ma))
+        ifs = [x.start() for x in re.finditer(r"\bif\s", body[:ma[0].start()])]
+        if not ifs:
+            raise F.Unreadable("no condition guards the parking")
+        cond = body[ifs[-1] + 2:body.rfind("{", 0, ma[0].start())]
+        got = conjuncts(cond, lets(body[:ifs[-1]]))
+        need = {"stream.front.is_terminated()", "stream.front.is_completed()", "stream.back.is_terminated()"}
+        if not need <= got:
+            return "the backend connection is parked on %r: the request side (front terminated and completely written) and the response side must all be finished" % sorted(got)
+        if not any(c.endswith("keep_alive_backend") for c in got) or "!interim" not in got:
+            return "the backend connection is parked on %r" % sorted(got)
+        extra = {c for c in got if c not in need and not c.endswith("keep_alive_backend") and c != "!interim"}
+        if extra:
+            return "the parking rule has other conditions %r" % sorted(extra)
+    _fact(fails, "h1.rs ConnectionH1::end_stream", "KeepAlive iff keep_alive_backend, response terminated, no interim in the buffer, request terminated and completely written", park, hard=True)
+
+    def front_reset():
+        mw = re.search(r"stream\.front\.clear\(\)\s*;", h1)
+        if not mw:
+            raise _absent("the keep-alive reset of the frontend slot (stream.front.clear()) is not found")
+        ifs = [x.start() for x in re.finditer(r"\bif\s", h1[:mw.start()])]
+        # the guarding `if` is the last one whose block is still open at the reset
+        guard = None
+        for st in reversed(ifs):
+            ob = h1.find("{", st)
+            if ob < 0 or ob > mw.start():
+                continue
+            try:
+                if F.matching(h1, ob) > mw.start():
+                    guard = (st, ob)
+                    break
+            except F.Unreadable:
+                continue
+        if guard is None:
+            raise F.Unreadable("no condition guards the keep-alive reset")
+        got = conjuncts(h1[guard[0] + 2:guard[1]], lets(h1[max(0, guard[0] - 4000):guard[0]]))
+        if "stream.front.is_terminated()" not in got:
+            return "the slot is reset for a next request on %r: the request must have been received to its end (front.is_terminated())" % sorted(got)
+    _fact(fails, "h1.rs keep-alive reset (writable)", "the slot is only reset when the request was received to its end", front_reset, hard=True)
+
     _fact(fails, "h2.rs handle_data_frame / trailers", "reset when total > declared on any DATA, and when total != declared at END_STREAM (DATA or trailers)", ledger)
     return fails
 
@@ -524,12 +603,51 @@ def guard_case(rng, cid):
     return Case(cid, [op], dict(kind="guard", n=len(hs)))
 
 
+TRAILER_NAMES = ["grpc-status", "grpc-message", "x-t", "x-checksum", "x^~", "a"]
+TRAILER_OWNED = ["x-forwarded-for", "forwarded", "x-real-ip", "x-request-id", "sozu-id"]
+# names starting with ':' — registered pseudo-headers or not, with arbitrary bytes behind (an HPACK literal carries any octet)
+TRAILER_COLON = [":path", ":method", ":scheme", ":authority", ":status", ":protocol", ":", ":x", ":X", "::", ":x-t", ":grpc-status",
+                 ":x\r\n\r\nGET /smuggled HTTP/1.1\r\nhost: localhost\r\nx-tail", ":x: 1\r\nx-injected", ":\x00", ":x y", ":\xff"]
+
+
+def h2t_case(rng, cid):
+    """a request trailer block for pkawa::handle_trailer: ordinary names, the attribution names, invalid names and
+    values, connection-specific names, te, and ':'-prefixed names of every kind, alone or among valid fields"""
+    ts = []
+    for _ in range(rng.randint(1, 4)):
+        r = rng.random()
+        if r < 0.35:
+            n, v = rng.choice(TRAILER_NAMES), rng.choice(VALUES)
+        elif r < 0.50:
+            n, v = rng.choice(TRAILER_OWNED), rng.choice(VALUES)
+        elif r < 0.68:
+            n, v = rng.choice(TRAILER_COLON), rng.choice(VALUES)
+            if rng.random() < 0.25:
+                n = ":" + rng.choice(NAMES + BADNAMES)
+        elif r < 0.76:
+            n, v = rng.choice(BADNAMES), rng.choice(VALUES)
+        elif r < 0.82:
+            n, v = rng.choice(CONN), rng.choice(VALUES)
+        elif r < 0.87:
+            n, v = "te", rng.choice(["trailers", "Trailers", "gzip", ""])
+        else:
+            v = rng.choice(VALUES)
+            i = rng.randint(0, len(v))
+            v = v[:i] + rng.choice(BADBYTES + OKBYTES) + v[i:]
+            n = rng.choice(TRAILER_NAMES)
+        ts.append((n, v))
+    lf = int(rng.random() < 0.2)
+    return Case(cid, [["h2t", lf] + [x for (n, v) in ts for x in (b(n), b(v))]], dict(kind="h2t", n=len(ts)))
+
+
 def gen_cases(rng, tier):
     n = {"quick": 6000, "thorough": 120000, "search": 20000}.get(tier, 6000)
     out = []
     for i in range(n):
         r = i % 5
         out.append(h2_case(rng, "a%d" % i) if r in (0, 2) else guard_case(rng, "g%d" % i) if r == 4 else h1_case(rng, "b%d" % i))
+    for i in range(n // 8):
+        out.append(h2t_case(rng, "t%d" % i))
     return out
 
 
@@ -556,6 +674,36 @@ def bb_cases(rng, tier):
         c = h1_case(rng, "x%d" % i)
         ops = [op if op[0] != "h1" else ["raw", op[1]] for op in c.ops]
         out.append(Case(c.id, ops, dict(kind="bb")))
+    out += early_answer_cases(rng, {"quick": 8, "thorough": 80}.get(tier, 8))
+    return out
+
+
+def early_answer_cases(rng, n):
+    """"early response, late body": the client sends a head announcing a body and HOLDS the body (or part of it); the
+    backend answers on the head (targets /early*: the recording backend answers as soon as the head is complete); once
+    the answer is complete the client sends the body, whose content is itself a well-formed request. The backend must
+    never read that content as a request of its own (driver oracle bb-boundaries: what the backend reads is, in order,
+    what a strict reader reads in the client's bytes). Driver op: script <bytes> | <pause ms> | r (= wait for one answer)"""
+    out = []
+    for i in range(n):
+        inner = b"GET /smuggled%d HTTP/1.1\r\nHost: x\r\n\r\n" % i
+        if i % 4 == 3:
+            inner = b"POST /smuggled%d HTTP/1.1\r\nHost: x\r\nContent-Length: 0\r\n\r\n" % i
+        body = inner * rng.choice([1, 1, 2])
+        head = b"POST /early%d HTTP/1.1\r\nHost: x\r\nContent-Length: %d\r\n\r\n" % (i, len(body))
+        held = rng.choice([0, 0, 0, rng.randint(1, len(body) - 1)])          # bytes of the body sent with the head
+        steps = [head + body[:held], "r"]
+        rest = body[held:]
+        if rng.random() < 0.4 and len(rest) > 2:
+            k = rng.randint(1, len(rest) - 1)
+            steps += [rest[:k], rng.choice([5, 30]), rest[k:]]
+        else:
+            steps += [rest]
+        steps += [rng.choice([100, 250])]
+        if rng.random() < 0.5:
+            # and a request of the client's own afterwards (answered or not: the connection may have been closed)
+            steps += [b"GET /after%d HTTP/1.1\r\nHost: x\r\n\r\n" % i, "r"]
+        out.append(Case("ea%d" % i, [["script"] + steps], dict(kind="bb")))
     return out
 
 
@@ -763,6 +911,56 @@ def parse_h2_obs(ob):
     return outc, goaway, h1, h2
 
 
+def h2_cancel_cases(rng, n):
+    """a stream whose request body is INCOMPLETE ends (answered on its head by the backend, then cancelled by the
+    client with RST_STREAM; or cancelled before any answer), then another stream goes to the same HTTP/1.1 backend:
+    the second request must reach the backend as a request of its own (new connection), never on the connection where
+    the backend still waits for the first body (witness of the finding fixed in h1.rs end_stream)"""
+    out = []
+    for i in range(n):
+        declared = rng.choice([400, 400, 5, 70000])
+        sent = rng.choice([0, 0, rng.randint(1, min(declared, 300) - 1)])
+        answered_first = i % 3 != 2
+        p1 = ("/early%d" % i) if answered_first else ("/held%d" % i)
+        ops = [["sid", 1],
+               ["hdr", 0] + [b(x) for x in (":method", "POST", ":scheme", "https", ":path", p1, ":authority", "localhost", "content-length", str(declared))]]
+        if sent:
+            ops.append(["data", sent, 0])
+        if answered_first:
+            ops.append(["await", 1])
+        else:
+            ops.append(["wait", rng.choice([20, 60])])
+        ops.append(["rst", rng.choice([8, 8, 0])])
+        ops.append(["wait", rng.choice([10, 50, 120])])
+        second_post = rng.random() < 0.4
+        ops.append(["sid", 3])
+        p2 = "/second%d" % i
+        if second_post:
+            ops.append(["hdr", 0] + [b(x) for x in (":method", "POST", ":scheme", "https", ":path", p2, ":authority", "localhost", "content-length", "5")])
+            ops.append(["data", 5, 1])
+        else:
+            ops.append(["hdr", 1] + [b(x) for x in (":method", "GET", ":scheme", "https", ":path", p2, ":authority", "localhost")])
+        ops.append(["go"])
+        out.append(Case("zc%d" % i, ops, dict(kind="h2cancel", second=p2, body=5 if second_post else 0, answered_first=answered_first)))
+    return out
+
+
+def judge_h2_cancel(c, o, res):
+    ob = [x for x in o["obs"] if x and x[0] == "client"]
+    if not ob:
+        res["failures"].append("black-box h2: no observation for case %s" % c.id)
+        return
+    outc, goaway, h1, h2 = parse_h2_obs(ob[0])
+    kind, code = outc.get(3, ("silent", 0))
+    key = b(c.tags["second"])
+    if kind != "answered" or h1.get(key) != c.tags["body"]:
+        res["viols"].append((c, "h2bb-cancelled-upload", "after the stream with an unfinished request body ended, the next stream (%s) got %s %s and the "
+                             "backend read %r as its body (seen %r): it was written on the connection where the backend still waits for the first body"
+                             % (c.tags["second"], kind, code, h1.get(key), sorted(h1))))
+    if c.tags["answered_first"] and outc.get(1, ("silent", 0))[0] != "answered":
+        res["failures"].append("black-box h2: case %s: the backend's early answer did not reach the client (%r)" % (c.id, outc.get(1)))
+
+
 def extra_stage(tier, rng, work):
     res = extra_stage_h1(tier, rng, work)
     n = {"quick": 70, "thorough": 1000}.get(tier, 70)
@@ -778,8 +976,17 @@ def extra_stage(tier, rng, work):
     except Exception as ex:
         res["failures"].append("black-box h2: model predictions unavailable: %r" % (ex,))
         return res
-    outs, problems = vlib.run_harness("c03h2bb", scns, os.path.join(work, "h2bb"), "release", timeout=300, shards=6)
+    cancels = h2_cancel_cases(rng, {"quick": 9, "thorough": 90}.get(tier, 9))
+    outs, problems = vlib.run_harness("c03h2bb", scns + cancels, os.path.join(work, "h2bb"), "release", timeout=300, shards=6)
     res["failures"] += problems
+    for c in cancels:
+        o = outs.get(c.id)
+        if o is None:
+            res["failures"].append("black-box h2: no result for case %s" % c.id)
+            continue
+        for (vc, vt) in o["viol"]:
+            res["viols"].append((c, vc, vt))
+        judge_h2_cancel(c, o, res)
     answered = refused = goaways = 0
     for c, ps in zip(scns, preds):
         o = outs.get(c.id)
@@ -863,6 +1070,8 @@ def nontrivial(case, o):
         return any(ob and ob[0] == "accept" for ob in o["obs"]) and t.get("regs", 0) >= 2
     if t.get("kind") == "guard":
         return t.get("n", 0) >= 2
+    if t.get("kind") == "h2t":
+        return t.get("n", 0) >= 2
     return t.get("n", 0) >= 2 or t.get("muts", 0) >= 1
 
 
@@ -876,10 +1085,14 @@ LEVEL_TEXT = ("Machine-checked proof (Coq 8.16): for EVERY HTTP/2 header list ac
               "run by shape/byte-class translators, by a differential run of the real handle_header + kawa serialiser and of "
               "the real kawa parser + HttpContext against the extracted model and strict reader, and by a black-box tier (real "
               "worker, recording backend with a strict reader, smuggling grammar at several segmentations).")
-LEVEL_NOTE = ("H2->H1 full on the model; H1->H1: names/framing fields are sozu's own checks (theorem), the value alphabet and "
-              "chunk framing are kawa's (oracle, checked differentially in-process and black-box). Six defects found and fixed "
-              "in /repo (69cd28f e4218a3 dfea9cc 39e8c05 8be8458 8e756bb 67251ca 3321ba0). Black-box tiers: HTTP/1 frontend "
-              "(smuggling grammar) and HTTP/2 frontend over TLS (header-list mutations + DATA/Content-Length schedules, "
-              "HTTP/1.1 and h2c recording backends), client outcome compared with accept_h2 + data_agree.")
+LEVEL_NOTE = ("H2->H1 full on the model (head, body framing, trailer section: h2_pseudo_trailer_refused / h2_accepted_trailers_well_formed / "
+              "h2_trailers_end_the_request over all byte strings); H1->H1: names/framing fields are sozu's own checks (theorem), the value "
+              "alphabet and chunk framing are kawa's (oracle, checked differentially in-process and black-box). Connection reuse: "
+              "parked_connection_has_no_unfinished_request mirrors ConnectionH1::end_stream (translator reads the guard; black-box: an upload "
+              "answered on its head and cancelled, then another stream). Defects found and fixed in /repo: 69cd28f e4218a3 dfea9cc 39e8c05 "
+              "8be8458 8e756bb 67251ca 3321ba0 48550c2. Black-box tiers: HTTP/1 frontend (smuggling grammar at several segmentations, scripted "
+              "clients: body withheld until the backend's early answer, oracle = the backend reads what a strict reader reads in the client's "
+              "bytes) and HTTP/2 frontend over TLS (header-list mutations + DATA/Content-Length schedules, cancelled uploads, HTTP/1.1 and h2c "
+              "recording backends), client outcome compared with accept_h2 + data_agree.")
 TECHNIQUE = "Rocq/Coq proof over an executable Gallina model + differential correspondence (extracted OCaml vs real crate)"
 CLAIMED = True
